@@ -2142,6 +2142,7 @@ bus_activation_activate_service (BusActivation  *activation,
           if (!bus_transaction_capture (activation_transaction,
                                         NULL, systemd, message))
             {
+              bus_transaction_cancel_and_free (activation_transaction);
               dbus_message_unref (message);
               BUS_SET_OOM (error);
               goto cancel_pending_activation;
